@@ -143,6 +143,11 @@ pub struct Conn {
     /// frozen connections are not driven any more (puppet takeover / peer crash)
     pub frozen: bool,
     pub tx_datagrams: u64,
+    /// datagrams emitted at the virtual instant `tx_burst_at` (transmit-storm guard)
+    pub tx_burst_at: Ns,
+    pub tx_burst: u64,
+    pub tx_window_at: Ns,
+    pub tx_window: u64,
     pub last_timeout_serviced: Option<Ns>,
     pub same_instant_timeouts: u32,
     pub connected_at: Option<Ns>,
@@ -234,6 +239,8 @@ pub struct Limits {
 }
 
 pub struct World {
+    /// real-time instant after which the world gives up (never read otherwise)
+    pub deadline: Option<std::time::Instant>,
     pub ch: Chooser,
     pub tap: Tap,
     pub base: Instant,
@@ -325,6 +332,7 @@ impl World {
         // every world starts from the same TLS entropy: ciphertext is a function of the world
         crate::cfgs::seed_tls(1);
         Self {
+            deadline: None,
             ch,
             tap,
             base: Instant::now(),
@@ -372,6 +380,7 @@ impl World {
         w.log_on = ctx.log;
         w.base += Duration::from_nanos(ctx.base_shift_ns);
         w.drv.spurious = ctx.spurious;
+        w.deadline = ctx.deadline;
         if ctx.keep_trace_text {
             w.trace_text = Some(Vec::new());
         }
@@ -507,6 +516,10 @@ impl World {
             closed_locally_at: None,
             frozen: false,
             tx_datagrams: 0,
+            tx_burst_at: 0,
+            tx_burst: 0,
+            tx_window_at: 0,
+            tx_window: 0,
             last_timeout_serviced: None,
             same_instant_timeouts: 0,
             connected_at: None,
@@ -726,6 +739,35 @@ impl World {
             n += 1;
             off = end;
         }
+        if inc != NO_INC && (inc as usize) < self.conns.len() {
+            // a connection that keeps producing datagrams without the clock ever moving is looping
+            // (no window drawn by any configuration here lets 50 000 datagrams out at one instant)
+            let now = self.now;
+            let c = &mut self.conns[inc as usize];
+            if c.tx_burst_at != now {
+                c.tx_burst_at = now;
+                c.tx_burst = 0;
+            }
+            c.tx_burst += n as u64;
+            if c.tx_burst > 50_000 && self.violations.is_empty() {
+                self.violate("transmit-storm", format!("inc{} emitted more than 50000 datagrams at the single instant {}", inc, fmt_t(now)));
+                self.hit_limit = Some("storm");
+            }
+            // ... and so is one that emits more than 100 000 datagrams within one second of virtual
+            // time (120 MB at full size: no workload here is that large, flood worlds included)
+            let c = &mut self.conns[inc as usize];
+            if now > c.tx_window_at + SEC {
+                c.tx_window_at = now;
+                c.tx_window = 0;
+            }
+            c.tx_window += n as u64;
+            if c.tx_window > 100_000 && self.hit_limit != Some("storm") {
+                if self.violations.is_empty() {
+                    self.violate("transmit-storm", format!("inc{} emitted more than 100000 datagrams within one second of virtual time (by {})", inc, fmt_t(now)));
+                }
+                self.hit_limit = Some("storm");
+            }
+        }
         if t.size == 0 {
             // a zero-size transmit is itself suspicious; record it as a datagram of size 0
             self.net_send(Dgram { id: 0, src, dst: t.destination, ecn: t.ecn, bytes: Vec::new(), origin_node: node, origin_inc: inc, genuine: true, parent: u32::MAX, sent_at: 0, deliver_at: 0, fate: Fate::InFlight, note: "" });
@@ -866,6 +908,10 @@ impl World {
                             closed_locally_at: None,
                             frozen: false,
                             tx_datagrams: 0,
+                            tx_burst_at: 0,
+                            tx_burst: 0,
+                            tx_window_at: 0,
+                            tx_window: 0,
                             last_timeout_serviced: None,
                             same_instant_timeouts: 0,
                             connected_at: None,
@@ -992,7 +1038,7 @@ impl World {
             let mut buf = Vec::with_capacity(1500 * gso);
             let mut n = 0;
             loop {
-                if n >= self.drv.transmit_cap {
+                if n >= self.drv.transmit_cap || self.hit_limit == Some("storm") {
                     break;
                 }
                 buf.clear();
@@ -1025,6 +1071,9 @@ impl World {
                         break;
                     }
                 }
+            }
+            if self.hit_limit == Some("storm") {
+                return;
             }
             // application events
             let mut evs = Vec::new();
@@ -1147,6 +1196,14 @@ impl World {
             };
             if self.step >= self.limits.max_events {
                 self.hit_limit = Some("events");
+                return;
+            }
+            if self.hit_limit == Some("storm") {
+                return;
+            }
+            if self.step % 512 == 0 && self.deadline.is_some_and(|d| std::time::Instant::now() > d) {
+                // (the campaign's wall-clock budget ran out in the middle of this world)
+                self.hit_limit = Some("wall");
                 return;
             }
             if t > self.limits.max_time {
